@@ -69,6 +69,36 @@ def lookups (hdr : List String) (ind : Int) (r : Except Err (List (Interaction (
             | .ok v => obj [("v", labelToJson v)]
             | .error e => obj [("err", Json.str (errName e))]) hdr)]) ints
 
+def c13ValJson : C13.Val → Json
+  | .str s => labelToJson (.atom (.str s))
+  | .int i => labelToJson (.atom (.num (i : Rat)))
+  | .cat s lv => labelToJson (.cat s lv)
+  | _ => Json.null
+
+def c13Res (r : C13.Res C13.Val) : Json :=
+  match r with
+  | .ok v => obj [("v", c13ValJson v)]
+  | .error .keyError => obj [("err", Json.str "KeyError")]
+  | .error .indexError => obj [("err", Json.str "IndexError")]
+  | .error .typeError => obj [("err", Json.str "TypeError")]
+  | .error _ => obj [("err", Json.str "Other")]
+
+/-- per row of a list-backed table: the lazy context object of the C13 model (`DropOne(HeadDense(list))`) observed
+by iteration, length, position and every header name -/
+def lazyObs (hdr : Option (List String)) (ind : Int) (table : List (List Label)) : Json :=
+  ofList (fun (row : List Label) =>
+    match rowC13 row, normIdx ind row.length with
+    | some vals, some i =>
+      if i < vals.length then
+        let c := lazyContext hdr vals i
+        obj [("iter", match c.iter with | .ok vs => ofList c13ValJson vs | .error _ => Json.null),
+             ("len", ofNat c.len),
+             ("pos", ofList (fun j => c13Res (c.getPos j)) (List.range c.len)),
+             ("by_name", ofList (fun nm => c13Res (c.getName nm)) (hdr.getD [])),
+             ("label", c13Res ((C13.DRow.label (lazyRow hdr vals) i none).labelVal))]
+      else Json.null
+    | _, _ => Json.null) table
+
 def parseStep (j : Json) : Except String C09.Step := do
   match j with
   | .arr #[a, b] => pure (.skip (← nat a) (← nat b))
@@ -96,7 +126,12 @@ def handleText (op : String) (req : Json) (given : Option LType) (probes : List 
       | .ok (some h, _), .index i => lookups (h.map textStr) i out
       | .ok (some h, _), .name nm => (match headerIndex h nm with | some i => lookups (h.map textStr) (i : Int) out | none => Json.null)
       | _, _ => Json.null
-    pure (obj [("model", outToJson (ofList labelToJson) probes out), ("lookup", look)])
+    let lazy := match C12.csvReaderFix (C12.excel delim) hdr lines, lc with
+      | .ok (h, rows), .index i => lazyObs (h.map (·.map textStr)) i (rows.map (·.map textLabel))
+      | .ok (some h, rows), .name nm => (match headerIndex h nm with
+          | some i => lazyObs (some (h.map textStr)) (i : Int) (rows.map (·.map textLabel)) | none => Json.null)
+      | _, _ => Json.null
+    pure (obj [("model", outToJson (ofList labelToJson) probes out), ("lookup", look), ("lazy", lazy)])
   | "svm_text" =>
     let lines := (← strList (← field req "lines")).map textOf
     let manik ← bool (← field req "manik")
@@ -142,10 +177,14 @@ def handle (req : Json) : Except String Json := do
     let ind ← int (← field req "ind")
     let rs ← rows.mapM (fun r => do (← arr r).mapM parseLabel)
     let out := match res with | some (k, steps) => simDenseS given k steps ind rs | none => simDense given take ind rs
-    let look ← match req.getObjVal? "header" with
-      | .ok h => do pure (lookups (← strList h) ind out)
-      | .error _ => pure Json.null
-    pure (obj [("model", outToJson (ofList labelToJson) probes out), ("lookup", look)])
+    let hdr ← match req.getObjVal? "header" with
+      | .ok h => do pure (some (← strList h))
+      | .error _ => pure none
+    let look := match hdr with | some h => lookups h ind out | none => Json.null
+    let lazy := match res, take, (fieldD req "lazy" (Json.bool false)).getBool? with
+      | none, none, .ok true => lazyObs hdr ind rs
+      | _, _, _ => Json.null
+    pure (obj [("model", outToJson (ofList labelToJson) probes out), ("lookup", look), ("lazy", lazy)])
   | "sparse" =>
     let key ← parseVal (← field req "key")
     let rs ← rows.mapM (fun r => do (← arr r).mapM (fun kv => do
